@@ -257,11 +257,21 @@ def gen_linear(draw):
     fin, fout = draw(st.integers(1, 4)), draw(st.integers(1, 4))
     form = draw(st.sampled_from(["fn", "fn", "module"]))
     lead = draw(gen.shapes(1, 1 if form == "module" else 3, 12))
-    xs = [X(lead + [fin], draw(gen.grid(lead + [fin], -16, 16))), X([fout, fin], draw(gen.grid([fout, fin], -16, 16)))]
     bias = draw(st.booleans())
+    wide = bias and form == "fn" and draw(st.integers(0, 2)) == 0
+    if wide:
+        lead = [draw(st.integers(2, 3)) for _ in range(draw(st.sampled_from([2, 2, 3])))]      # batched input, several positions
+    xs = [X(lead + [fin], draw(gen.grid(lead + [fin], -16, 16))), X([fout, fin], draw(gen.grid([fout, fin], -16, 16)))]
+    args = {"form": form, "bias": bias, "neuron": draw(st.booleans())}
     if bias:
-        xs.append(X([fout], draw(gen.grid([fout], -16, 16))))
-    return {"xs": xs, "args": {"form": form, "bias": bias, "neuron": draw(st.booleans())}}
+        bshape = [fout]
+        if wide:
+            # x @ W.T + b with a bias of higher rank (one row per position, or full): not spelled out for F.linear, but
+            # wherever it is accepted it is the same broadcasting sum
+            bshape = draw(st.sampled_from([[1, fout], lead[-1:] + [fout], lead[-1:] + [fout], lead + [fout], [lead[-2], 1, fout]]))
+            args["wide_bias"] = True
+        xs.append(X(bshape, draw(gen.grid(bshape, -16, 16))))
+    return {"xs": xs, "args": args}
 
 
 def apply_linear(ts, args):
@@ -287,7 +297,9 @@ def ref_linear(xs, args):
     out = np.zeros(x.shape[:-1] + (w.shape[0],))
     for idx in np.ndindex(*x.shape[:-1]):
         for o in range(w.shape[0]):
-            out[idx + (o,)] = float(np.dot(x[idx], w[o])) + (xs[2][o] if args["bias"] else 0.0)
+            out[idx + (o,)] = float(np.dot(x[idx], w[o])) + (xs[2][o] if args["bias"] and not args.get("wide_bias") else 0.0)
+    if args["bias"] and args.get("wide_bias"):
+        out = out + xs[2]
     return out
 
 
@@ -686,7 +698,8 @@ OPS = [
     _loss_op("mse"), _loss_op("nll"), _loss_op("bce"), _loss_op("bce_logits"), _loss_op("ce"),
     TOp("linear", gen_linear, apply_linear, ref_linear,
         nt=lambda a, s: len(s[0]) != 2 or not a["bias"],
-        tags=lambda a, s: ["rank_%d" % len(s[0]), "bias" if a["bias"] else "no_bias", a["form"]]),
+        tags=lambda a, s: ["rank_%d" % len(s[0]), "bias" if a["bias"] else "no_bias", a["form"]] + (["bias_of_higher_rank"] if a.get("wide_bias") else []),
+        documented=lambda a, s: not a.get("wide_bias")),
     TOp("conv1d", lambda: gen_conv(1), _apply_conv(1), _ref_conv(1),
         nt=lambda a, s: len(_geom_feats(a, s, 1, list(s[1][2:]))) > 0, tags=_conv_tags(1)),
     TOp("conv2d", lambda: gen_conv(2), _apply_conv(2), _ref_conv(2),
